@@ -407,10 +407,15 @@ func (s *MemoryStore) RevokeRefreshToken(ctx context.Context, requestID string) 
 func (s *MemoryStore) RevokeAccessToken(ctx context.Context, requestID string) error {
 	s.accessTokenRequestIDsMutex.RLock()
 	defer s.accessTokenRequestIDsMutex.RUnlock()
+	s.accessTokensMutex.Lock()
+	defer s.accessTokensMutex.Unlock()
 
-	if signature, exists := s.AccessTokenRequestIDs[requestID]; exists {
-		if err := s.DeleteAccessTokenSession(ctx, signature); err != nil {
-			return err
+	// A request can own more than one access token (the hybrid flow issues one at the authorization endpoint
+	// and another one when the code is exchanged), while AccessTokenRequestIDs only remembers the signature
+	// stored last. All access tokens of the request are revoked.
+	for signature, req := range s.AccessTokens {
+		if req.GetID() == requestID {
+			delete(s.AccessTokens, signature)
 		}
 	}
 	return nil
